@@ -31,7 +31,8 @@ def sh(cmd, cwd=None, env=None, timeout=900):
 def scratch_worktree():
     d = tempfile.mkdtemp(prefix='vf_seed_')
     os.rmdir(d)
-    rc, out = sh(['git', '-C', REPO, 'worktree', 'add', '-q', '--detach', d, 'HEAD'])
+    rc, out = sh(['git', '-C', REPO, 'worktree', 'add', '-q', '--detach', d,
+                  os.environ.get('SEED_BASE', 'HEAD')])   # SEED_BASE: the commit the change was written against
     if rc:
         raise RuntimeError(out)
     return d
@@ -113,7 +114,8 @@ def cmd_import(out_dir, pid):
         meta['property'] = pid
         meta['origin'] = 'independent sub-agent given only the property text and a private worktree'
         meta['verified_by_me'] = {
-            'base_commit': sh(['git', '-C', REPO, 'rev-parse', 'HEAD'])[1].strip(),
+            'base_commit': sh(['git', '-C', REPO, 'rev-parse',
+                               os.environ.get('SEED_BASE', 'HEAD')])[1].strip(),
             'ran': ['git apply patch.diff in a scratch worktree of /repo HEAD',
                     '/venv/bin/python -m pytest -q -p no:cacheprovider  -> ' + rec['tests_with_patch'],
                     'PLOTINK_ROOT=<patched worktree> /venv/bin/python demo.py -> exit %d'
